@@ -254,3 +254,33 @@ CLAIM.update({
         ref="DESIGN.md section 4, C11", technique="fuzzing + property-based testing (rapid) with abort-offset and flag-word enumeration; reference stream model as oracle",
         note="client constructed on a net.Pipe through the overlay accessor, or NewConnection to an abstract unix socket"),
 })
+
+PLAN["C13"] = dict(
+    quick=[dict(test="TestC13Rapid", checks=800), dict(test="TestC13Resolver", checks=400)],
+    thorough=[*shards("TestC13Rapid", 12, checks=5000), *shards("TestC13Resolver", 4, checks=3000)],
+)
+
+LEVEL.update({"C13": "exploration"})
+RULE.update({
+    "C13": "case = a service created with four generated identity strings (any valid UTF-8 incl. empty, NUL, quotes, non-BMP) and a generated "
+           "history of 3-25 operations over {register fresh name with generated description (empty, unicode, up to 64 KB; odd names: dots, unicode, "
+           "near misses), register a name twice (own or org.varlink.service), listen (fake listener + DoListen, or Listen on an abstract unix socket), "
+           "register while listening, query, shutdown, listen again}; every history ends with listen + query. Model = ordered name list starting with "
+           "org.varlink.service + description map. Each query uses the client helpers: GetInfo (identity, names in order, each once; also with nil "
+           "out-pointers), GetInterfaceDescription for every listed name (text unchanged) and for unlisted names (empty, near misses, names refused or "
+           "registered later) -> *InvalidParameter{interface}. Second generator: a scripted org.varlink.resolver with generated identity and table; "
+           "Resolver.GetInfo / Resolve must return its answers field for field, Resolve(org.varlink.resolver) the resolver's own address. "
+           "Non-trivial = >=3 successful registrations, >=1 refused one, >=1 shutdown and >=1 query.",
+})
+ASSUME.update({
+    "C13": ["the empty interface name is not registered (no caller does; the description lookup treats it as missing)",
+            "the built-in interface's description is compared with its own first reading and must describe org.varlink.service"],
+})
+CLAIM.update({
+    "C13": dict(
+        text="Stateful model-based test: generated register/duplicate/listen/register-while-listening/query/shutdown/re-listen histories on one "
+             "Service object, compared after every query with a model of the registry through the real client helpers; generated resolver tables "
+             "through the Resolver helpers.",
+        ref="DESIGN.md section 4, C13", technique="stateful model-based property testing (rapid-generated operation histories, model = ordered registry)",
+        note="histories are generated as explicit operation lists so that each case is a serialisable, replayable value"),
+})
